@@ -595,6 +595,31 @@ def _ftn_solve_stops(unit: FUnit, ec, fc):
     return stops
 
 
+def r4b_outcome_recorded_before_raise(R) -> None:
+    """The pure-Python engine records the status and the iteration count of a period and *then* raises for it
+    (NonConvergenceError after 'F', SolutionError after 'E').  The wrappers must leave the same record behind: every such
+    raise is preceded, on every path, by a store into the status series and one into the iterations series."""
+    for m in ('solve', 'solve_t'):
+        q = f'{FE}.{m}'
+        f = Fn(R, q)
+        stores = series_stores(f.cfg, f.lf)
+        st_nodes = {k: [s_.node.id for s_ in stores if s_.series == k] for k in ('status', 'iterations')}
+        for cls_, msgkey in (('NonConvergenceError', 'non-convergence'),):
+            rs = f.raises(cls_)
+            if not rs:
+                R.inconclusive(q, f'no `raise {cls_}` found in the form this rule reads')
+                continue
+            for r in rs:
+                for k in ('status', 'iterations'):
+                    before = [i for i in st_nodes[k] if i in f.dom[r.id]]
+                    # a store that every path to the raise passes (dominates it), or a set of stores that together cut every path
+                    from fsa.flow import must_pass
+                    cut = bool(before) or (bool(st_nodes[k]) and must_pass(f.cfg, f.cfg.entry, r.id, st_nodes[k]))
+                    R.check(cut, q, f'recorded-before-raise:{cls_}:{k}', f'the {k} of the period is recorded before {cls_} is raised for it',
+                            f'`raise {cls_}` at L{r.lineno} is reached without the {k} of the period having been stored: the pure-Python engine records the status (F) and the '
+                            f'iteration count first and then raises, so after the same exception the two objects differ', where=f.where(r), decided=bool(st_nodes[k]))
+
+
 # ---------------------------------------------------------------------------
 def r5_skeleton(R, unit: FUnit) -> None:
     sub = unit.subs.get('solve_t')
@@ -637,7 +662,7 @@ def r5_skeleton(R, unit: FUnit) -> None:
             hi = t
     for which, t, desc, code in (('lo', lo, 'P + offset < 0', 'offset_predates_span'), ('hi', hi, 'P + offset >= ncols', 'offset_postdates_span')):
         if t is None:
-            R.violation(C, f'offset-guard-{which}', f'no offset rejection equivalent to `{desc}` (0-based P) in the Fortran routine; the Python solver has it', where='template')
+            R.violation(C, f'offset-guard-{which}', f'no offset rejection equivalent to `{desc}` (0-based P) in the Fortran routine; the Python solver has it', where='template', mismatch=True)
             continue
         tb = [b for (b, lab) in t.succ if lab == 'T']
         okc = all(isinstance(cfg.nodes[b].ast, ast.Assign) and text(cfg.nodes[b].ast.value) == code for b in tb)
@@ -941,7 +966,7 @@ def run(R) -> None:
     R.rule('C07.R2', lambda: r2_ffi_agreement(R, unit))
     R.rule('C07.R2b', lambda: r2b_results_stored_first(R))
     R.rule('C07.R3', lambda: r3_index_base(R, unit))
-    R.rule('C07.R4', lambda: r4_code_tables(R, unit))
+    R.rule('C07.R4', lambda: (r4_code_tables(R, unit), r4b_outcome_recorded_before_raise(R)))
     R.rule('C07.R5', lambda: r5_skeleton(R, unit))
     R.rule('C07.R5b', lambda: c03.r7_default_range(R))
     R.rule('C07.R6', lambda: r6_equation_rewrite(R))
